@@ -228,6 +228,45 @@ pub fn main(tier: Tier, seed: u64) -> i32 {
             }
         }
     }
+    // thorough: all pairs of faults of the reduced menu in two different online-phase messages (n = 2)
+    if tier.is_thorough() {
+        let online: Vec<FCase> = cases
+            .iter()
+            .filter(|c| cfgs[c.cfg].case.n() == 2 && c.msgs.len() == 1 && crate::campaign::is_online(&c.label) && matches!(c.muts[0].node, Some(NodeMut::FlipBool) | Some(NodeMut::XorLow) | Some(NodeMut::SomeToNone)))
+            .cloned()
+            .collect();
+        let mut pairs = vec![];
+        for a in 0..online.len() {
+            for b in 0..online.len() {
+                let (x, y) = (&online[a], &online[b]);
+                if x.cfg == y.cfg && x.msgs[0] < y.msgs[0] {
+                    // the second fault is applied to the bytes actually sent
+                    let (path, node) = (y.muts[0].path.clone().unwrap_or_default(), y.muts[0].node.clone().unwrap());
+                    let label = y.label.clone();
+                    let dynf: crate::exec::MutFn = std::sync::Arc::new(move |bytes: &[u8]| {
+                        let ty = crate::schema::msg_type(&label)?;
+                        let mut v = crate::schema::decode(bytes, &ty).ok()?;
+                        crate::schema::apply(&ty, &mut v, &path, &node);
+                        Some(crate::schema::encode_vec(&v))
+                    });
+                    let mut m2 = y.muts[0].clone();
+                    m2.dynamic = Some(dynf);
+                    pairs.push(FCase {
+                        cfg: x.cfg,
+                        msgs: vec![x.msgs[0], y.msgs[0]],
+                        muts: vec![x.muts[0].clone(), m2],
+                        label: format!("{}+{}", x.label, y.label),
+                        field: format!("{}+{}[chain]", x.label, y.label),
+                        rule: Rule::Always,
+                        to_all: false,
+                        desc: format!("{} THEN {}", x.desc, y.desc),
+                    });
+                }
+            }
+        }
+        rep.set("online_fault_pairs", json!(pairs.len()));
+        cases.extend(pairs);
+    }
     let results = par_map(&cases, |w, _, c| {
         let cfg = &cfgs[c.cfg];
         run_faults(cfg, faults_of(cfg, c), vec![], false, w).0
